@@ -124,6 +124,8 @@ def c04_jobs(tier, seed):
     q = tier == "quick"
     n = 14
     j = [Job("dbg", "w_proc", "c04 --scenario all --nshards %d --shard %d --stride %d --seed %d --secs %d" % (n, i, 3 if q else 1, seed, 150 if q else 1500), timeout=400 if q else 2400, engine="ptrace-stepper") for i in range(n)]
+    j += [Job("dbg", "w_proc", "c04 --part shared --scenario all --nshards 6 --shard %d --stride %d --seed %d --secs %d" % (i, 4 if q else 1, seed, 150 if q else 1500), timeout=400 if q else 2400, engine="ptrace-stepper+holder") for i in range(6)]
+    j += [Job("dbg", "w_proc", "c04 --part second --scenario all --nshards 8 --shard %d --stride %d --seed %d --secs %d" % (i, 12 if q else 1, seed, 150 if q else 2400), timeout=500 if q else 3600, engine="ptrace-stepper+second-crash") for i in range(8)]
     if not q:
         j += [Job("dbg", "w_proc", "c04 --scenario all --markers --nshards %d --shard %d --stride 1 --seed %d --secs 1500" % (n, i, seed), timeout=2400, engine="ptrace-stepper+atomic-markers") for i in range(n)]
     return j
